@@ -7,6 +7,9 @@ import NloptModel.Model.Glue
 import NloptModel.Model.Slsqp
 import NloptModel.Model.Isres
 import NloptModel.Model.Crs
+import NloptModel.Model.EschDriver
+import NloptModel.Model.CrsDriver
+import NloptModel.Model.IsresDriver
 /-! `nlopt_model <stream>`: line-protocol driver.  Reads operation lines on stdin, prints one
     canonical result line per operation.  Arithmetic is the hardware's (through `Float`). -/
 open Nlopt
@@ -86,4 +89,7 @@ def main (args : List String) : IO UInt32 := do
   | ["glue"] => loop stdin stdout () (glueStep nativeArith); return 0
   | ["inc"] => loop stdin stdout ({} : IncSt) incStep; return 0
   | ["stop"] => loop stdin stdout () (UtilDrv.stopStep nativeArith); return 0
+  | ["crs"] => loop stdin stdout ({} : CrsDrv.DrvSt) (CrsDrv.drvStep nativeArith); return 0
+  | ["esch"] => loop stdin stdout ({} : EschDrv.DrvSt) (EschDrv.drvStep nativeArith); return 0
+  | ["isres"] => loop stdin stdout ({} : IsresDrv.DrvSt) (IsresDrv.drvStep nativeArith); return 0
   | _ => IO.eprintln "usage: nlopt_model <api|...>"; return 2
